@@ -770,7 +770,7 @@ FN('stop_on_chunk_boundary', props=['C07'],
    ensures=[('aux.stop_on_chunk_boundary', 'final(self).state.stop_on_chunk_boundary == enabled && final(self).request == old(self).request && final(self).analyzed == old(self).analyzed && final(self).state.phase == old(self).state.phase && final(self).state.writer == old(self).state.writer && final(self).state.reader == old(self).state.reader && final(self).state.skip_method_body_check == old(self).state.skip_method_body_check')])
 FN('is_on_chunk_boundary', props=['C07'], ret='r',
    requires=[('C09.reader_present', 'self.state.reader is Some')],
-   ensures=[('aux.RecvBody.is_on_chunk_boundary', 'r == (self.state.reader->Some_0 is Chunked && self.state.reader->Some_0->Chunked_0 is Size)')])
+   ensures=[('aux.RecvBody.is_on_chunk_boundary', 'self.state.reader->Some_0 is Chunked ==> r == (self.state.reader->Some_0->Chunked_0 is Size)')])
 FN('is_ended', props=['C07', 'C08', 'C09'], ret='r',
    requires=[('C09.reader_present', 'self.state.reader is Some')],
    ensures=[('C08.complete_iff', '''r == match self.state.reader->Some_0 { BodyReader::NoBody => true, BodyReader::LengthDelimited(v) => v == 0,
